@@ -35,6 +35,7 @@ SHAPES = {
     "TSD_TSS": {"k": "TSD", "el": {"k": "TSS"}},
     "TSB_TSL": {"k": "TSB", "fs": [TS, {"k": "TSL", "n": 2, "el": TS}]},
     "TSD_TSB": {"k": "TSD", "el": {"k": "TSB", "fs": [TS, TS]}},
+    "DTSL": {"k": "TSL", "n": 8, "dyn": 1, "el": TS},      # dynamic (unsized) TSL<TS<Int>>, indices 0..7
 }
 KEEP_COLL = {"ops", "w", "p", "ret"}
 KEEP_RR = {"p", "ap", "rec", "ret", "norec"}
@@ -114,6 +115,9 @@ def random_script(rng, shape, horizon, nkeys, nvals, maxops, allow_inv):
         if r < 0.30:
             cycles[t] = []                # evaluated, nothing written
             continue
+        if shape == "DTSL":
+            cycles[t] = dynamic_list_ops(rng, nvals, allow_inv, cycles)
+            continue
         n = 1 if shape == "TSW" else rng.randint(1, maxops)
         ops = []
         for _ in range(n):
@@ -137,6 +141,20 @@ def random_script(rng, shape, horizon, nkeys, nvals, maxops, allow_inv):
                     live.clear()
         cycles[t] = ops
     return cycles
+
+
+def dynamic_list_ops(rng, nvals, allow_inv, earlier):
+    """one cycle of a dynamic list: 1..5 DISTINCT children tick (the per-cycle ring of modified children must hold all of them),
+    in any order, sometimes one of them twice; optionally an invalidation of an existing child / of the list"""
+    size = 1 + max([o["p"][0] for ops in earlier.values() for o in ops if o["p"]] + [-1])
+    k = rng.choice([1, 1, 2, 2, 3, 3, 3, 4, 4, 5])
+    idx = rng.sample(range(8 if rng.random() < 0.3 else 6), k)
+    ops = [op("set", (i,), (rng.randint(0, nvals),)) for i in idx]
+    if rng.random() < 0.3:
+        ops.insert(rng.randrange(len(ops) + 1), op("set", (rng.choice(idx),), (rng.randint(0, nvals),)))
+    if allow_inv and size > 0 and rng.random() < 0.3:
+        ops.insert(rng.randrange(len(ops) + 1), op("inv") if rng.random() < 0.3 else op("inv", (rng.randrange(size),)))
+    return ops
 
 
 def has_write_erase_write(cycles):
@@ -173,9 +191,9 @@ class Case:
 def invalidation_cases(rng, n):
     """scripts that invalidate composite positions: root TSB / fixed TSL, the list inside TSB{a,l}, a TSB child of a TSD"""
     cases = []
-    shapes = ["TSB", "TSL", "TSB_TSL", "TSD_TSB"]
+    shapes = ["TSB", "TSL", "TSB_TSL", "TSD_TSB", "DTSL"]
     for i in range(n):
-        shape = shapes[i % 4]
+        shape = shapes[i % 5]
         horizon = rng.randint(3, 6)
         cyc = random_script(rng, shape, horizon, 2, 3, 4, True)
         cases.append(Case("inv%d" % i, shape, cyc, horizon, rng.randint(1, 3), False, "random-invalidation"))
@@ -190,7 +208,7 @@ def random_cases(rng, n, tier):
         big = tier == "thorough" and i % 3 == 0
         horizon = rng.randint(8, 30) if big else rng.randint(2, 6)
         nkeys = rng.randint(6, 20) if big else rng.randint(1, 3)
-        allow_inv = shape in ("TS", "TSL", "TSB", "TSB_TSL", "TSD_TSB") and i % 2 == 0
+        allow_inv = shape in ("TS", "TSL", "TSB", "TSB_TSL", "TSD_TSB", "DTSL") and (i // len(shapes)) % 2 == 0
         cyc = random_script(rng, shape, horizon, nkeys, 3, 5 if big else 4, allow_inv)
         cases.append(Case("rnd%d" % i, shape, cyc, horizon, rng.randint(1, min(horizon, 4)), not allow_inv, "random"))
     return cases
